@@ -17,7 +17,17 @@ git checkout -- .
 (cd "$demodir" && go test -vet=off -count=1 $flags -run "$pat" . >>"$log" 2>&1); without=$?
 git apply "$out/patch.diff"
 mv "$demo" "$TMPDIR/demo.go.bak"
-(go test -vet=off -count=1 ./... >>"$log" 2>&1 && cd tests && go test -vet=off -count=1 ./... >>"$log" 2>&1); suite=$?
+suite=1
+for attempt in 1 2 3 4; do
+  # upstream's TestPreparedStmtConcurrentClose is flaky under machine load (also on the unchanged tree): retry
+  : > "$log.suite"
+  (go test -vet=off -count=1 ./... >>"$log.suite" 2>&1 && cd tests && go test -vet=off -count=1 ./... >>"$log.suite" 2>&1); suite=$?
+  cat "$log.suite" >> "$log"
+  [ $suite -eq 0 ] && break
+  if grep -q "^--- FAIL" "$log.suite" && [ "$(grep "^--- FAIL" "$log.suite" | grep -vc TestPreparedStmtConcurrentClose)" -eq 0 ]; then continue; fi
+  break
+done
+rm -f "$log.suite"
 mv "$TMPDIR/demo.go.bak" "$demo"
 echo "$name: demo_with_change_exit=$with demo_without_change_exit=$without existing_suite_with_change_exit=$suite"
 [ $with -ne 0 ] && [ $without -eq 0 ] && [ $suite -eq 0 ] && echo "$name: CONFIRMED" || echo "$name: NOT CONFIRMED"
